@@ -120,6 +120,9 @@ def gen(rng, tier):
     for k in range(2 if tier == "quick" else 8):
         yield {"family": "c16:state-across-connections", "kind": "tierb-state", "source": "c16", "backends": ["asyncio", "trio"],
                "lifespan_sets": rng.choice([None, "x"]), "plan": [rng.choice([1, 2, 3]) for _ in range(rng.choice([2, 3]))], "rep": k}
+        # the lifespan application goes on changing its state after start-up (a background task of its own): what later connections see of it
+        yield {"family": "c16:state-changed-after-startup", "kind": "tierb-state", "source": "c16", "backends": ["asyncio", "trio"],
+               "lifespan_sets": "x", "late_state": True, "plan": [1, 2], "rep": k}
     for mr in ((1, 3) if tier == "quick" else (1, 2, 3, 5, 8)):
         yield {"family": "c16:max-requests", "kind": "tierb-maxreq", "source": "c16", "backends": ["asyncio", "trio"], "max_requests": mr}
     yield from _gen_read_timeout(rng, tier)
@@ -379,7 +382,9 @@ def _tierb_state(case, tally):
     views = {}
     for be in ("asyncio", "trio"):
         ls = [["recv"]] + ([["set_state", "from_lifespan", case["lifespan_sets"]]] if case["lifespan_sets"] else []) + \
-             [["send", {"type": "lifespan.startup.complete"}], ["recv"], ["send", {"type": "lifespan.shutdown.complete"}]]
+             [["send", {"type": "lifespan.startup.complete"}]] + \
+             ([["sleep", 0.05], ["set_state", "set_after_startup", "late"]] if case.get("late_state") else []) + \
+             [["recv"], ["send", {"type": "lifespan.shutdown.complete"}]]
         h = ServeHarness(be, {"graceful_timeout": 0.5, "shutdown_timeout": 0.5, "keep_alive_timeout": 5.0},
                          {"lifespan": ls, "default": [["recv_until_end"], ["count_and_respond_state"]]})
         bodies = []
@@ -387,6 +392,8 @@ def _tierb_state(case, tally):
             h.start()
             h.wait_event(lambda e: e[2] == "app" and e[3] == "send.", 3.0)
             h.wait_ready()
+            if case.get("late_state"):
+                h.wait_event(lambda e: e[2] == "app" and e[3] == "recv" and False, 0.4)  # (let the lifespan application make its later change)
             for nreq in case["plan"]:  # one connection after the other, nreq keep-alive requests each
                 s = h.connect()
                 conn = []
